@@ -17,6 +17,26 @@ CHECKS = {
             "For every executed instruction of C01's three generators the number of raw clock edges between two boundaries must equal the documented control-word count of the form/addressing mode (data-dependent for JR, MUL, DIV) plus one wait for each model access to an address <= 0xEF and none for I/O addresses; MUL/DIV are swept over all operand pairs.",
             "Trusted: the step-count table `steps()` in harness/src/isa.rs (DESIGN.md Appendix A). Counts are only taken for steps issued as raw edges; step-mode independence of the count is C11's equivalence.",
             "DESIGN.md §4 C15"),
+    "C02": ("exploration",
+            "differential testing against a two-pass reference assembler; exhaustive enumeration of instruction form x operand shape x register, each after generated directive prefixes; AST-first random programs",
+            "Every machine-instruction form x operand shape x register (about 2 500 shapes, enumerated) is assembled bare and after generated prefixes of .ORG/.BYTE/.DB/.DW/*STACKSIZE/*PROGRAMSIZE with the referenced label before or after it, and AST-first random programs (image <= 240 bytes, forward .ORG, unique names, references in any letter case) are assembled; per source line the reported line and its bytes, the limits and the whole image must equal the reference assembler's (opcode/mode bits, operand bytes, zero fill, big-endian words, case-insensitive label/.EQU resolution, relative offsets modulo 256).",
+            "Trusted: harness/src/refasm.rs (DESIGN.md Appendix B) and the harness parser agreement (C03). Programs with backward .ORG, images > 240 bytes or duplicate names are outside C02's domain (C06 covers crashes).",
+            "DESIGN.md §4 C02"),
+    "C03": ("exploration",
+            "differential testing against a hand-written recogniser of the language: AST-first valid programs with random spelling (expected AST known by construction), token-level mutants, token soups, arbitrary Unicode / bytes; enumerated boundary texts and complete numeric sweeps; catch_unwind for crashes",
+            "Valid-by-construction programs must be accepted with exactly the generated AST (line by line, comments trimmed); for mutants and arbitrary strings the verdict (accept / syntax error / undefined labels / too many labels) and, on acceptance, the AST must equal those of an independent line-oriented recogniser; any panic is a violation. Enumerated: hand-written boundary texts (255/256, 0x100, 8/9 binary digits, 65535/65536, 40/41 definitions, header forms, register spellings), every word value 0..65535(+) in all three radices, every byte value in every constant context.",
+            "Trusted: harness/src/refparse.rs (DESIGN.md Appendix C); its agreement with the generator is self-checked on every valid case and against the hand-written boundary expectations (a disagreement there is a harness error, exit 2).",
+            "DESIGN.md §4 C03"),
+    "C06": ("exploration",
+            "robustness property testing with catch_unwind over the whole accepted language (AST-first generation + acceptable mutants), crash signatures keyed by panic site + layout shape against a known-findings list",
+            "Programs over everything the parser accepts (DEC with all operand shapes, mixed-case references, .ORG backward/equal/forward, images 0..400 bytes, up to 40 names, every instruction shape) are parsed; if accepted (and the reference recogniser agrees) Translator::compile, Machine::load, Machine::new_with_program and the byte-code listing must not panic in a build with debug assertions and overflow checks. Two root causes remain as known findings (deliberate panic on backward .ORG; images > 240 bytes); they are keyed on panic site + layout shape so that any other crash, or the same panic site on a program without that shape, is reported.",
+            "Trusted: Rust panic detection. The TUI program-pane path (ProgramDisplayState::from_bytecode) and the process-level `verify`/`run` are exercised by the harness-bin checks.",
+            "DESIGN.md §4 C06"),
+    "C16": ("exploration",
+            "round-trip property testing (format -> parse) at program and line granularity over AST-first generated programs, enumerated instruction shapes and mutants",
+            "For every accepted text the parsed program's Display rendering must be accepted and parse to an equal Asm, and each line's Display rendering (the TUI program pane / listing form), appended to a header and followed by definitions of the names it references, must parse back to exactly that line; enumerated over every instruction form x operand shape x register and generated over numeric values, comments with printable/Unicode content and labels of 1-60 characters.",
+            "Trusted: the parser (C03). The hex column of listings is not mrasm and is not fed back.",
+            "DESIGN.md §4 C16"),
     "C04": ("exploration",
             "metamorphic + monitor-based testing: proptest-generated (main, ISR) programs, key press injected at every clock cycle of the run (exhaustive per program) and at every ordered pair of cycles in a window; clone-based obligation monitor, entry-shape check, interrupted == uninterrupted relation",
             "For each generated program the uninterrupted run gives T; then every cycle 0..=T is tried as trigger. At the trigger an uninterrupted clone is advanced to the first sampling boundary: if enable bit and IEF are set at the press and IEF still is at that boundary the routine must be entered exactly there (PC=2, SP-2, return address and flags pushed, IEF cleared, nothing else changed); if the enable bit (or IEF at both points) is clear it must not be entered; otherwise the count is unconstrained. Every run must end in exactly the state of the uninterrupted run (registers, flags, SP, outputs, RAM outside counter cell and dead stack), and the ISR counter must equal the entries seen at boundaries. Second triggers merge into an undecided obligation.",
